@@ -23,6 +23,9 @@ PROP = {'streams': [('c17', 1000, 100000)],
               'response_sliced_static',
               'decision_sliced_static',
               'full_statement_of_fragment',
+              'manifest_sound_valid',
+              'decision_sliced_valid',
+              'manifest_sound_valid_accepted',
               'typed_false_environment_breaks_slicing'],
  'assumptions': ['manifest_sound_partial / response_sliced_partial are PROVED ONLY FOR THE FRAGMENT `Cedar.Manifest.InFrag` (literals, variables, . and '
                  'has chains through records and entities, && || !, if (also producing entities/records that are then dereferenced), unary -, isEmpty, '
@@ -32,10 +35,14 @@ PROP = {'streams': [('c17', 1000, 100000)],
                  'that the model slicer meets the slice specification (SubStore + CoverRoots) is PROVED (slicer_meets_spec) for tries with unique '
                  'children keys and is_entity_type annotations that agree with the data; both are proved for manifests (manifestOfExpr_wf, '
                  'toTypedRoots_wf, flagsRoots_typed, coverRoots_untyped) under: record types with unique attribute names (TypesUK) and data that '
-                 'conforms to the schema as far as the tries look (ConfRoots: no undeclared attribute under a typed node, records only at record '
-                 'types; sound executable checker confRootsB); the derivation of ConfRoots from C11 conformance and of SafeOps from C03 type '
-                 'soundness is NOT proved (full_statement_of_fragment states exactly these two obligations); the specification is still also '
-                 'checked on every sampled slice (driver op mspec)',
+                 'conforms to the schema as far as the tries look (ConfRoots); BOTH ARE NOW DERIVED from the C03 / C11 notions '
+                 '(manifest_sound_valid): ConfRoots from C11 conformance (confRoots_all: ConformsRequest + StoreConforms, schema SchemaClosed = '
+                 'SchemaWF3 + no open entity types), SafeOps in its lazy form Sim from C03 type soundness (sim_typed), TypesUK from typeOf_cn; '
+                 'manifest_sound_valid covers the core fragment plus extension function calls (FragE), is about the ORIGINAL policies and the typed ASTs typedAst (annotation with typeOf types + the '
+                 'short-circuit transformations of typecheck.rs); typedAst is a specification-level definition written from typecheck.rs, '
+                 'NOT diffed against the typed ASTs Rust produces (those are what the correspondence run feeds the analysis model); remaining '
+                 'side conditions of manifest_sound_valid: NoRecOps (== not on records, contains not looking for a record - syntactic on the '
+                 'typed AST) and CtxWF (context keys unique); the specification is still also checked on every sampled slice (driver op mspec)',
                  'the typed AST of each policy per request environment, the resolved schema and to_typed input are taken from Rust '
                  '(Typechecker::typecheck_by_request_env, ValidatorSchema); to_typed is mirrored, diffed and part of the end-to-end proof (response_sliced_static)',
                  'the analysis rejects policies with tags (UnsupportedCedarFeature): outside the property by construction, counted '
@@ -57,7 +64,7 @@ TEXT = ('Lean model (Cedar/Manifest.lean) mirroring entity_manifest.rs + analysi
  'to_typed and the analysis into response_sliced_static: for static policies in the fragment the response over sliceStore(manifest) equals the '
  'response over the full store, for data conforming to the schema as far as the tries look (ConfRoots); full_statement_of_fragment reduces the '
  'full statement (exclusions: typed-False environments, templates, tags, unknowns, slicer failure exits) to fragment coverage + the C03/C11 links. '
- 'NOT proved: record and set literals, == on records, extension calls; ConfRoots from C11 conformance, SafeOps from C03 type soundness. The statement on the implementation (authorization over slice_entities == over the full store) is searched on generated '
+ 'manifest_sound_valid discharges both links for the C03 typechecker model and the C11 conformance notions (static policies of the fragment accepted by checkEnv strict and not typed False, conformant request/store: authorization of the original policies over sliceStore(manifest of the typed ASTs) equals authorization over the full store; the typed AST includes the short-circuit transformations of the typechecker). Extension function calls are covered by manifest_sound_valid (Sim.call1 / call2). NOT proved: record and set literals, == / contains on records. The statement on the implementation (authorization over slice_entities == over the full store) is searched on generated '
  'schema worlds with manifest-stressing policy families; two classes of genuine failures are recorded as known findings (typed-False environments; '
  'template slots).',
  'proof over a hand-written model for a stated fragment (analysis + to_typed + slicer + authorizer composed); the remaining constructs '
